@@ -1,5 +1,5 @@
 ENGINES = [
- {"name": "pyvc", "path": "/verif/pyvc", "serves_properties": ["C01", "C02", "C03", "C15", "C19"],
+ {"name": "pyvc", "path": "/verif/pyvc", "serves_properties": ["C01", "C02", "C03", "C04", "C15", "C19"],
   "kind_free_text": "own verification-condition generator: symbolic execution of the real function ASTs (re-read from /repo every run) against sidecar contracts (/verif/contracts), obligations discharged by z3 5.1 (cvc5 on unknown), validated finite-shape counter-models for refutation"},
  {"name": "bounded", "path": "/verif/bounded", "serves_properties": ["C%02d" % i for i in range(1, 21)],
   "kind_free_text": "bounded stand-ins: the property's contract evaluated at run time on the real code over enumerated small scopes (deal/icontract/plain wrappers), never counted as proved"},
@@ -22,6 +22,10 @@ CHECKS = [
   "technique": "contract-based deductive verification (pyvc VC generation from the real AST + z3) + bounded contract check"},
 ]
 CHECKS += [
+ {"id": "C04", "category": "proof", "design_ref": "5/C04",
+  "text": "Simulator.simulate is proved for all simulator states: a continuation is refused exactly when the requested end is not later than the absolute time already reached; otherwise the recorded segment ends exactly at the requested absolute time whatever the integrator's shifted clock, or exactly one failure is recorded and results are unchanged. Bounded: all operation histories up to length 3 over 22 operations (simulate, time courses, overrides, parameter updates, steady state, clearing, protocols) against a closed-form piecewise oracle.",
+  "note": "Proved part: Simulator.simulate only; _handle_simulation_results (pandas frame construction) and the integrator protocol enter through assumed contracts (an integrator asked for T returns, on success, a time course ending at T). simulate_time_course, update_variables, steady-state continuation and the trajectories are bounded only.",
+  "technique": "contract-based deductive verification (pyvc + z3) for the continuation rule + bounded contract check"},
  {"id": "C02", "category": "proof", "design_ref": "5/C02",
   "text": "_check_if_is_sortable is proved for all graphs: it raises MissingDependenciesError exactly when some component requires a name nobody provides, the error lists exactly those names per component, and nothing is modified (ghost set fold Provided, loop invariants). _sort_dependencies (order validity, cycles, termination, cap adequacy) is covered by the bounded part: all graphs with <= 3 components x all declaration orders on the real functions, plus model-level order independence.",
   "note": "Proved part: _check_if_is_sortable only. _sort_dependencies has no verified contract yet (queue loop invariant not built): bounded only. Assumes sorted() returns the members of its argument, names pairwise distinct.",
@@ -35,7 +39,7 @@ CHECKS += [
   "note": "Assumes the file-system/pickle model of pyvc/lib_fs.py (atomic Path.replace, partial file until close), default Cache functions, temp name not a result name, distinct keys have distinct names. parallelise (pool, ordering) is bounded only.",
   "technique": "contract-based deductive verification (pyvc + z3) incl. crash invariant + bounded contract check"},
 ]
-for _p, _ref in [("C04","5/C04"),("C05","5/C05"),("C06","5/C06"),("C07","5/C07"),("C08","5/C08"),("C09","5/C09"),("C10","5/C10"),("C11","5/C11"),("C12","5/C12"),("C13","5/C13"),("C14","5/C14"),("C16","5/C16"),("C17","5/C17"),("C18","5/C18"),("C20","5/C20")]:
+for _p, _ref in [("C05","5/C05"),("C06","5/C06"),("C07","5/C07"),("C08","5/C08"),("C09","5/C09"),("C10","5/C10"),("C11","5/C11"),("C12","5/C12"),("C13","5/C13"),("C14","5/C14"),("C16","5/C16"),("C17","5/C17"),("C18","5/C18"),("C20","5/C20")]:
     CHECKS.append({"id": _p, "category": "exploration", "design_ref": _ref, "text": _BN, "note": "Run-time contract on the real code; oracle independent of the code under test (closed forms / recomputation from the property statement); tolerances, bounds and exclusions stated in the evidence and in proposed/" + _p + "/NOTES.md.", "technique": _B, "engine": "bounded"})
 CHECKS.sort(key=lambda c: c["id"])
 NOT_APPLICABLE = [{"property_id": f"C{i:02d}", "reason": _PENDING} for i in range(1, 21) if f"C{i:02d}" not in {c["id"] for c in CHECKS}]
